@@ -103,6 +103,51 @@ def run(ctx):
             cases.append(('ecdsa_verify_rs %s %s %d %d' % (pb.hex(), zh(zz), r, ss), lib_verify(pb, zz, r, ss), True))
     ctx.compare(cases, 'verify')
 
+    # ---- one signature, every accepted input form: compact r||s (bytes / hex), DER, DER + hash type, object -----------------
+    from bitcoinlib.keys import verify as lib_verify_any
+    kk = Key(rng.randrange(1, N))
+    picked = []
+    want_tops = [0x30, 0x30, 0x02, 0x00, 0x80]
+    tries = 0
+    while want_tops and tries < 6000:
+        tries += 1
+        zz = rng.getrandbits(256)
+        sg = sign(zh(zz), kk)
+        top = sg.r >> 248
+        if top in want_tops:
+            want_tops.remove(top)
+            picked.append((zz, sg))
+    picked += [(z, s) for k_obj, z, s in rng.sample(produced, min(len(produced), 6)) if False]
+    for zz, sg in picked:
+        compact = sg.r.to_bytes(32, 'big') + sg.s.to_bytes(32, 'big')
+        der = sg.as_der_encoded(include_hash_type=False)
+        # (DER is only an input form together with its hash-type byte, as it appears in scripts)
+        forms = {'object': sg, 'compact-bytes': compact, 'compact-hex': compact.hex(), 'der+hashtype': sg.as_der_encoded(),
+                 'der+hashtype-hex': sg.as_der_encoded().hex()}
+        model = run_driver(['ecdsa_verify_rs %s %s %d %d' % (kk.public_byte.hex(), zh(zz), sg.r, sg.s)])[0].split(' | ')[0]
+        for name, form in forms.items():
+            ctx.evals += 1
+            ctx.count('input-form:' + name)
+            try:
+                got = 'true' if lib_verify_any(zh(zz), form, kk.public_byte) else 'false'
+            except Exception as e:
+                got = 'raise:' + type(e).__name__
+            if got != model.split('-')[0]:
+                ctx.violation('a valid signature is not accepted in one of its input forms',
+                              {'op': 'verify-form ' + name, 'r_top_byte': '%02x' % (sg.r >> 248), 'observed': got, 'independent_verifier': model,
+                               'signature': compact.hex(), 'digest': zh(zz), 'public_key': kk.public_byte.hex()})
+            # a tampered copy in the same form must be refused
+            if name.startswith('compact'):
+                bad = bytearray(compact)
+                bad[40] ^= 1
+                bad = bytes(bad) if name == 'compact-bytes' else bytes(bad).hex()
+                try:
+                    gb = bool(lib_verify_any(zh(zz), bad, kk.public_byte))
+                except Exception:
+                    gb = False
+                if gb:
+                    ctx.violation('a tampered compact signature verifies', {'op': 'verify-form tampered ' + name})
+
     # ---- DER parsing ----------------------------------------------------------------------------------------
     def lib_der(der):
         try:
